@@ -234,3 +234,40 @@ pub trait Scenario {
 pub fn catch<T>(f: impl FnOnce() -> T) -> Option<T> {
     std::panic::catch_unwind(std::panic::AssertUnwindSafe(f)).ok()
 }
+
+/// C20 self-check of one listing, independent of the model: page through it with
+/// limit 1, the default limit and an oversized limit (cursor = key of the last
+/// returned item, keys are the text before the first ':'); every page must respect
+/// `min(limit or 10, 30)` and all three walks must return the same sequence.
+/// Returns a description of the first inconsistency.
+pub fn paging_audit(name: &str, f: &dyn Fn(Option<String>, Option<u32>) -> Option<Vec<String>>) -> Option<String> {
+    let mut walks: Vec<Vec<String>> = vec![];
+    for limit in [Some(1u32), None, Some(1000u32)] {
+        let cap = limit.unwrap_or(10).min(30) as usize;
+        let mut out: Vec<String> = vec![];
+        let mut cursor: Option<String> = None;
+        for _ in 0..10_000 {
+            match f(cursor.clone(), limit) {
+                Some(p) if !p.is_empty() => {
+                    if p.len() > cap {
+                        return Some(format!("{name}:page-of-{}-exceeds-{}", p.len(), cap));
+                    }
+                    cursor = Some(p.last().unwrap().split(':').next().unwrap().to_string());
+                    out.extend(p);
+                }
+                _ => break,
+            }
+        }
+        walks.push(out);
+    }
+    if walks[0] != walks[1] || walks[1] != walks[2] {
+        return Some(format!("{name}:walks-differ-{}-{}-{}", walks[0].len(), walks[1].len(), walks[2].len()));
+    }
+    let mut keys: Vec<&str> = walks[0].iter().map(|e| e.split(':').next().unwrap()).collect();
+    let n = keys.len();
+    keys.dedup();
+    if keys.len() != n {
+        return Some(format!("{name}:item-listed-twice"));
+    }
+    None
+}
